@@ -119,7 +119,9 @@ Definition holds (c : case) : bool :=
       | Ok b =>
         if d <=? 0 then b =? five_min_ns
         else (0 <=? b) && (b mod five_min_ns =? 0)
-             && (if b =? 0 then d <? 288 else d / b <=? 288)
+             && (if b =? 0 then d <? 288
+                 else if d mod ns_per_s =? 0 then d <=? 288 * b   (* whole seconds: ceil(d / b) <= 288 *)
+                 else d / b <=? 288)
       | _ => false
       end
     else true
@@ -140,5 +142,5 @@ Definition holds (c : case) : bool :=
   | CPrep first last a err size =>
     if err then true
     else (0 <? size) && (size mod five_min_ns =? 0)
-         && (match a with RAuto => ((last - first) * ns_per_s) / size <=? 288 | _ => true end)
+         && (match a with RAuto => (last - first) * ns_per_s <=? 288 * size | _ => true end)
   end.
